@@ -92,6 +92,25 @@ def decomposeAndSplit (Q P : List Nat) (hasP : Bool) (levelQ levelP nbPi d : Nat
     let rowsP := (List.range (levelP + 1)).map fun j => ms (P.getD j 0) (nQ + j)
     some (subScalarBig Q levelQ QHalf rowsQ, subScalarBig P levelP QHalf rowsP)
 
+/-- `rlwe.Evaluator.DecomposeNTT(levelQ, levelP, nbPi, c2, c2IsNTT, decompQP)` (core/rlwe/evaluator_gadget_product.go):
+    for every digit `d < size` the pair (rows of decompQP[d].Q, rows of decompQP[d].P), all in the NTT domain:
+    `DecomposeAndSplit` on the coefficient-domain input, `NTT` of every row except the digit's own moduli,
+    which are copied from the NTT-domain input. -/
+def decomposeNTT (TQ TP : Scaling.Tabs) (Q P : List Nat) (levelQ levelP nbPi size : Nat) (isNTT : Bool)
+    (c2 : Rows) : Option (List (Rows × Rows)) :=
+  let inv := if isNTT then Scaling.inttRows TQ levelQ c2 else c2
+  let ntt := if isNTT then c2 else Scaling.nttRows TQ levelQ c2
+  (List.range size).mapM fun d =>
+    match decomposeAndSplit Q P true levelQ levelP nbPi d inv ((List.range (levelQ + 1)).map fun _ => []) with
+    | none => none
+    | some (a, b) =>
+      let st := d * nbPi
+      let ed := st + nbPi
+      let rq := (List.range (levelQ + 1)).map fun x =>
+        if st ≤ x ∧ x < ed then row ntt x else NTT.nttStd (Scaling.tab TQ x) (row a x)
+      let rp := (List.range (levelP + 1)).map fun j => NTT.nttStd (Scaling.tab TP j) (row b j)
+      some (rq, rp)
+
 /-- `MaskVec(p1, w, mask, p2)` -/
 def maskVec (w mask : Nat) (p1 : List Nat) : List Nat := p1.map fun x => MaskVec_lane x w mask 0
 
